@@ -9,6 +9,7 @@ import (
 	"runtime"
 	"strconv"
 	"sync"
+	"testing/synctest"
 	"time"
 )
 
@@ -33,6 +34,7 @@ type thread struct {
 	arrived  chan string
 	finished chan struct{}
 	panicked string
+	hung     bool   // blocked for good by the harness (a channel that never returns)
 	ops      int    // scheduling points passed
 	obs      uint64 // hash of everything the thread has read so far
 }
@@ -44,6 +46,13 @@ type Sched struct {
 	byGid   map[uint64]*thread
 	Trace   []string
 	free    bool // free-running mode (race pass): gates are open
+	// SpawnedBy, if set, names the function whose "go" statements create threads the scheduler
+	// must wait for (they register at their first scheduling point): settle does not return while
+	// a goroutine created there has not reached its point yet.
+	SpawnedBy string
+	// Bubble: the execution runs inside a testing/synctest bubble; quiescence is synctest.Wait
+	// (every goroutine durably blocked), which also covers goroutines the code under test spawns.
+	Bubble bool
 }
 
 // NewSched returns a scheduler.
@@ -131,6 +140,44 @@ func (s *Sched) Key() string {
 	return out
 }
 
+// Block tells the scheduler that the calling thread is about to block for good (the harness is
+// playing a channel that never returns); the thread stays disabled.
+func (s *Sched) Block() {
+	if s.free {
+		return
+	}
+	g := gid()
+	s.mu.Lock()
+	t := s.byGid[g]
+	s.mu.Unlock()
+	if t != nil {
+		t.arrived <- "#hung"
+	}
+}
+
+// DrainAll runs every remaining thread to completion, including threads that were hung and
+// have been released by the harness.
+func (s *Sched) DrainAll() {
+	for round := 0; round < 100; round++ {
+		s.mu.Lock()
+		ts := append([]*thread{}, s.threads...)
+		s.mu.Unlock()
+		for _, t := range ts {
+			if t.hung && !t.done {
+				t.hung, t.running = false, true
+			}
+		}
+		s.settle()
+		s.Drain()
+		if s.AllDone() {
+			return
+		}
+		if len(s.Enabled(-1)) == 0 {
+			time.Sleep(time.Millisecond)
+		}
+	}
+}
+
 // Done marks a spawned goroutine as finished (called by harness channel implementations).
 func (s *Sched) Done() {
 	if s.free {
@@ -140,7 +187,9 @@ func (s *Sched) Done() {
 	s.mu.Lock()
 	t := s.byGid[g]
 	s.mu.Unlock()
-	if t != nil {
+	// only goroutines the code under test spawned end this way; a delivery running inside a
+	// controlled thread (synchronous fan-out) ends with that thread
+	if t != nil && t.name == "spawned" {
 		close(t.finished)
 	}
 }
@@ -173,6 +222,26 @@ func goroutineStates() map[uint64]string {
 // held by a parked thread. Threads that were blocked are re-examined after every step, because
 // the step may have released the lock they wait for.
 func (s *Sched) settle() {
+	if s.Bubble {
+		synctest.Wait()
+		s.mu.Lock()
+		ts := append([]*thread{}, s.threads...)
+		s.mu.Unlock()
+		for _, t := range ts {
+			select {
+			case op := <-t.arrived:
+				if op == "#hung" {
+					t.hung, t.running = true, false
+				} else {
+					t.at, t.running = op, false
+				}
+			case <-t.finished:
+				t.done, t.running = true, false
+			default:
+			}
+		}
+		return
+	}
 	for {
 		s.mu.Lock()
 		ts := append([]*thread{}, s.threads...)
@@ -186,7 +255,11 @@ func (s *Sched) settle() {
 			for t.running {
 				select {
 				case op := <-t.arrived:
-					t.at, t.running = op, false
+					if op == "#hung" {
+						t.hung, t.running = true, false
+					} else {
+						t.at, t.running = op, false
+					}
 				case <-t.finished:
 					t.done, t.running = true, false
 				case <-time.After(300 * time.Microsecond):
@@ -221,10 +294,48 @@ func (s *Sched) settle() {
 		s.mu.Lock()
 		same := len(ts) == len(s.threads)
 		s.mu.Unlock()
-		if same {
+		if same && !s.spawnPending() {
 			return
 		}
+		if same {
+			time.Sleep(20 * time.Microsecond)
+		}
 	}
+}
+
+// spawnPending reports whether a goroutine created by SpawnedBy exists that the scheduler has not
+// registered yet (it is on its way to its first scheduling point).
+func (s *Sched) spawnPending() bool {
+	if s.SpawnedBy == "" {
+		return false
+	}
+	buf := make([]byte, 1<<20)
+	n := runtime.Stack(buf, true)
+	for _, block := range bytes.Split(buf[:n], []byte("\n\n")) {
+		if !bytes.HasPrefix(block, []byte("goroutine ")) || !bytes.Contains(block, []byte("created by "+s.SpawnedBy)) {
+			continue
+		}
+		// a goroutine that already is inside the harness beyond the wrapper (parked at a point,
+		// inside a sink, possibly left over from an earlier execution) is not "on its way"
+		past := false
+		for _, ln := range bytes.Split(block, []byte("\n")) {
+			if bytes.Contains(ln, []byte("verifh/schedwalk.")) && !bytes.Contains(ln, []byte("(*wrapCh).Notify")) {
+				past = true
+			}
+		}
+		if past {
+			continue
+		}
+		f := bytes.Fields(block[:bytes.IndexByte(block, '\n')])
+		id, _ := strconv.ParseUint(string(f[1]), 10, 64)
+		s.mu.Lock()
+		_, known := s.byGid[id]
+		s.mu.Unlock()
+		if !known {
+			return true
+		}
+	}
+	return false
 }
 
 func lockWait(st string) bool {
